@@ -1,6 +1,7 @@
 import MaltModel.Proofs.C18Stmt
 import MaltModel.Proofs.C18Rejects
-import MaltModel.Py.SemAnfStd
+import MaltModel.Proofs.C18Sem6
+import MaltModel.Proofs.C18Examples
 /-
 C18 — A-normal-form transformation preserves evaluation order and yields ANF.
 
@@ -9,7 +10,7 @@ predicates in `Conv.AnfSpec`, semantics `Py.SemAnf`.  Theorems are for all progr
 configurations (lists of edge patterns) unless a hypothesis says otherwise.
 -/
 namespace Malt.Props.C18
-open Malt.Py Malt.Anf
+open Malt.Py Malt.Anf Malt.SemAnf Malt.Anf.Ex
 
 private theorem anf_ok {cfg : Config} {p : Stmt} {q : List Stmt} (h : anf cfg p = .ok q) :
     ∃ n' pend', visitS cfg p 0 [] = .ok (q, n', pend') := by
@@ -94,5 +95,103 @@ theorem C18_lazy_untouched (cfg : Config) (i : Nat) (isAnd : Bool) (vs : List Ex
     simpa [acceptsE] using this
   rw [visitE_quiet cfg _ n hq] at h
   exact (Except.ok.inj h).symm
+
+/-! ## 4. Preservation of results, effects and their order
+
+Full statement (FALSE of the pinned code, see the counterexamples below):
+
+    theorem C18_sem : anf cfg p = .ok [q] → observe (runFn O genv q args) = observe (runFn O genv p args)
+
+`observe` = (returned value or raised exception, ordered log of calls / stores / enter-exit events).
+The transformer hoists, for a node with operands `c₁ … cₙ`, first everything nested in *all* operands, then
+the operands themselves — so an operand is overtaken by what is nested in later operands.  `hazards`
+(`Conv.AnfSpec`) classifies the overtakings the semantics can observe; each class is reproduced on the real
+code and listed in `known_findings.d/C18.json`. -/
+
+/-- **C18_sem_partial** — for every oracle (every behaviour of the called functions, every pure
+interpretation of the operators), every configuration, every global environment and all arguments:
+if `p` is a function of the fragment `fragFn cfg p` — straight-line / `if` / `for` code over variables,
+constants, calls with positional arguments, attribute / item loads, unary / binary operators, single
+comparisons, tuple / list / set displays and `:=`, in which for every node no operand is overtaken
+(`okT`: the later operands create no pending statement and are hoisted only if the earlier one is), unless the
+earlier operand is a variable or unselected constant that the later ones do not rebind — and no identifier of
+`p` looks like a temporary, then the transformed function returns / raises the same value and produces the
+same effect log in the same order.
+
+Missing for the full statement: the hazard classes of `hazards` (genuine defects, counterexamples below);
+`with` / `try` / `while` / augmented, attribute, item and unpacking assignments / `del` / keyword, `*`, `**`
+arguments / dict displays / slices (modelled, differentially tested against CPython and the real transformer,
+not proved); operands that are pure but not atoms in front of an overtaking operand. -/
+theorem C18_sem_partial (O : Oracle) (cfg : Config) (p q : Stmt) (genv : Env) (args : List Val)
+    (hfrag : fragFn cfg p = true) (hnt : NoTempNames p) (h : anf cfg p = .ok [q]) :
+    observe (runFn O genv q args) = observe (runFn O genv p args) :=
+  sem_fragFn O cfg p q genv args hfrag hnt h
+
+/-- Expression level of `C18_sem_partial`: executing the pending statements and then evaluating what is left
+in place simulates evaluating the original expression (`SimE`: same value or same exception, same effect
+log, same values of all non-temporaries). -/
+theorem C18_sem_expr (O : Oracle) (cfg : Config) (e : Expr) (hf : fragE e = true) (hok : okT cfg e = true)
+    (hnt : ∀ y ∈ namesE e, isTempName y = false) (n : Nat) (e' : Expr) (D : List Stmt) (n' : Nat)
+    (h : visitE cfg e n = .ok (e', D, n')) : SimE O e e' D :=
+  simE O cfg e hf hok hnt n e' D n' h
+
+/-! ### The hypotheses are satisfiable by a non-trivial program
+`pGood`: `x = tr(1, a + b*2); for v in (tr(2), x): if v < tr(3, v): x = tr(4, x, v)`; `return tr(5, x)`. -/
+example : fragFn defaultConfig pGood = true := by decide +kernel
+example : (namesS pGood).all (fun x => !isTempName x) = true := by decide +kernel
+example : hazS defaultConfig pGood = [] := by decide +kernel
+/-- … the transformer accepts it; 5 pending assignments are flushed at the top level alone … -/
+example : (match anf defaultConfig pGood with
+    | .ok [.functionDef _ _ _ b _ _ _] => b.length | _ => 0) = 3 + 5 := by
+  decide +kernel
+/-- … and (instance of the theorem with the concrete oracle) the observation is unchanged. -/
+example : sigAnf defaultConfig pGood 2 5 = sig (run pGood 2 5) := by decide +kernel
+
+/-! ### Lean-checked counterexamples to the full statement (one per reproduced defect class)
+`sig` = tags of the `tr(k, …)` calls in order, then the returned integer; inputs `a = 0, b = 1`. -/
+
+/-- `x = a; return x + (x := 5)` — class `name_read_reordered_after_rebinding_operand`: 5 before, 10 after. -/
+example : sig (run pWalrus 0 1) = [5] ∧ sigAnf defaultConfig pWalrus 0 1 = [10]
+    ∧ hazS defaultConfig pWalrus = [H_READ] := by decide +kernel
+
+/-- `O[tr(1)] = tr(2)` — class `store_target_evaluated_before_value`: calls 2,1 before and 1,2 after. -/
+example : sig (run pStore 0 1) = [2, 1, 0] ∧ sigAnf defaultConfig pStore 0 1 = [1, 2, 0]
+    ∧ hazS defaultConfig pStore = [H_STORE] := by decide +kernel
+
+/-- `tr(1, tr(2), tr(3, tr(4)))` — class `operand_effect_reordered_after_later_operand`. -/
+example : sig (run pSibling 0 1) = [2, 4, 3, 1, 10] ∧ sigAnf defaultConfig pSibling 0 1 = [4, 2, 3, 1, 10]
+    ∧ hazS defaultConfig pSibling = [H_OPERAND] := by decide +kernel
+
+/-- `{tr(2): tr(3), tr(4): tr(5)}` — class `dict_value_reordered_after_later_key`. -/
+example : sig (run pDict 0 1) = [2, 3, 4, 5, 1, 6] ∧ sigAnf defaultConfig pDict 0 1 = [2, 4, 3, 5, 1, 6]
+    ∧ hazS defaultConfig pDict = [H_DICT] := by decide +kernel
+
+/-- `tmp_1001 = a + 7; return tr(1, tr(2, b), tmp_1001)` — class `user_name_has_temporary_form`: the user's
+variable is overwritten by the first temporary (so `C18_temps` needs `NoTempNames`). -/
+example : sig (run pTempName 0 1) = [2, 1, 6] ∧ sigAnf defaultConfig pTempName 0 1 = [2, 1, 1]
+    ∧ hazS defaultConfig pTempName = [] ∧ "tmp_1001" ∈ namesS pTempName ∧ isTempName "tmp_1001" = true := by
+  refine ⟨by decide +kernel, by decide +kernel, by decide +kernel, by decide +kernel, ?_⟩
+  have h : tmpName 0 = "tmp_1001" := by decide +kernel
+  rw [← h]; exact isTempName_tmpName 0
+
+/-- Hence the full statement is false of the model (and, by the correspondence, of the code). -/
+theorem C18_sem_full_is_false :
+    ¬ ∀ (p q : Stmt) (args : List Val), anf defaultConfig p = .ok [q] →
+        observe (runFn stdOracle stdGlobals q args) = observe (runFn stdOracle stdGlobals p args) := by
+  intro hall
+  have h2 : sigAnf defaultConfig pWalrus 0 1 = [10] := by decide +kernel
+  have h3 : sig (run pWalrus 0 1) = [5] := by decide +kernel
+  unfold sigAnf runAnf at h2
+  split at h2
+  · next o ho =>
+    split at ho
+    · next q hq =>
+      simp only [Option.some.injEq] at ho
+      subst ho
+      simp only [run] at h2 h3
+      rw [hall pWalrus q _ hq, h3] at h2
+      exact absurd h2 (by decide)
+    · exact absurd ho (by simp)
+  · exact absurd h2 (by decide)
 
 end Malt.Props.C18
